@@ -84,3 +84,37 @@ def make_cases(rng, tier):
         body = g.blk(rng.randint(1, depth), False, top=True)
         cases.append(make_case(cid, body, g.inject() + [single_key_map()], rng=rng, fancy=rng.random() < 0.3)); cid += 1
     return cases
+
+
+def kinds_in(node, acc):
+    if isinstance(node, dict):
+        if node.get("s"):
+            acc.append(node["s"])
+        for v in node.values():
+            kinds_in(v, acc)
+    elif isinstance(node, (list, tuple)):
+        for v in node:
+            kinds_in(v, acc)
+    return acc
+
+
+def nontrivial(c, o):
+    ks = kinds_in(c["body"], [])
+    if not any(k in ("if", "for", "forrange") for k in ks):
+        return None
+    return tree_shape_key(c["body"])
+
+
+RULE = ("systematic: {for, forRange} x {break, continue, return, none} x 5 nesting positions (loop body, inside if, else, else-if, nested loop) x 3 iteration indexes, with Mark calls making the executed path observable; "
+        "else-if chains of length 0-3 with every truth vector, with and without else; the 10,000-iteration cap (9,999 / 10,000 / unbounded); the four compound assignments on 8 target kinds (local, struct field, nested field by value and by pointer, map entries, slice elements); "
+        "a local assigned two blocks deep read at top level; random statement trees of depth <= 3 (thorough 5) with ~5% wild constructs (non-boolean conditions, break outside loops, undefined locals); "
+        "compared: outcome class, returned value, cited positions, the full sequence of calls with argument values and dynamic types, and the host objects afterwards; distinct non-trivial = distinct statement-tree shapes containing a loop or branch")
+
+
+def main(run):
+    return lang_check(run, PID, make_cases, RULE,
+                      ["forRange over a map is compared on single-key maps or order-independent bodies (Go map iteration order is arbitrary; the theorems quantify over the key order)"], nontrivial)
+
+
+def replay(run, data):
+    return replay_lang(run, data)
